@@ -194,9 +194,12 @@ def label_judge(case):
             if lab != _WANT_LABEL[want]:
                 raise Violation("label-chain", f"is_readable at ratio {r!r} large={large} = {lab!r}, expected {_WANT_LABEL[want]!r}")
             # bulk status is recomputed from the returned colour through the same label chain
-            out = make_readable_bulk([(t, b, large)])
-            if len(out) != 1 or out[0][1] != _WANT_LABEL[want].lower():
-                raise Violation("label-bulk", f"bulk status at ratio {r!r} large={large} = {out!r}, expected {_WANT_LABEL[want].lower()!r}")
+            # one list mixing this text size, the other one and a 2-element entry (= normal size): each status is the label
+            # of the stubbed ratio AT THAT ENTRY'S size
+            out = make_readable_bulk([(t, b, large), (t, b, not large), (t, b)])
+            wants = [_WANT_LABEL[ow.level(r, lg)].lower() for lg in (large, not large, False)]
+            if len(out) != 3 or [o[1] for o in out] != wants:
+                raise Violation("label-bulk", f"bulk statuses at ratio {r!r} for sizes (large={large}, large={not large}, 2-element entry) = {out!r}, expected {wants!r}")
         finally:
             contrast.calculate_contrast_ratio = orig
     else:
